@@ -121,7 +121,11 @@ def stampedBody (todayShort : Str) (_o n : NoteState) : Str :=
 def startsWithItem (l : Str) : Bool :=
   ["- ", "o ", "~ ", "x ", "< ", "> "].any (fun p => p.toList.isPrefixOf l)
 
-def isBlankLine (l : Str) : Bool := l.all (fun c => c == ' ' || c == '\t' || c == '\n' || c == '\r' || c == '\x0b' || c == '\x0c')
+/-- `line.strip() == ""` (used for the line above the target on a header-only page) -/
+def isWsLine (l : Str) : Bool := l.all (fun c => c == ' ' || c == '\t' || c == '\n' || c == '\r' || c == '\x0b' || c == '\x0c')
+
+/-- `line == ""`: only an empty line ends a block (a line of spaces is a continuation line of the note) -/
+def isBlankLine (l : Str) : Bool := l.isEmpty
 
 /-- `add_note`: (index of the blank line that ends the last block, or the last line; was an item seen?;
 is the scan still inside a note at the end of the page?) -/
@@ -142,7 +146,7 @@ def addNote (lines noteLines : List Str) : List Str :=
   if !isBlankLine target then
     -- no trailing newline: append (after an empty line unless the page ends with a note)
     lines.take (k + 1) ++ (if inNote then [] else [[]]) ++ noteLines
-  else if !found && k > 0 && !isBlankLine (lines.getD (k - 1) []) then lines.take (k + 1) ++ noteLines   -- header only
+  else if !found && k > 0 && !isWsLine (lines.getD (k - 1) []) then lines.take (k + 1) ++ noteLines   -- header only
   else lines.take k ++ noteLines ++ lines.drop (k + 1)
 
 def hasInfixStr (pat s : Str) : Bool := (List.range (s.length + 1)).any (fun i => pat.isPrefixOf (s.drop i))
